@@ -23,6 +23,12 @@ def main():
     seeds = collections.defaultdict(list)
     for p in sorted(glob.glob(f'{V}/seeded/*/meta.json')):
         m = json.load(open(p))
+        d = m.get('detection')
+        if d and 'detected' not in d:
+            # meta written by confirm_seed.py only (detect_seeds.py not re-run): derive the same keys from its bvcheck run
+            d['properties_reporting'] = sorted({l.split('property=')[1].split()[0] for l in d.get('violation_lines') or []})
+            d['rules_reporting'] = sorted({l.split('[')[1].split(']')[0] for l in d.get('reports', [])})
+            d['detected'] = bool(d['properties_reporting'])
         seeds[m['property']].append(m)
     out = [MARK, '']
     out.append('## Appendix G — generated inventory: per property, what the check decides, its rules, self-tests and seeded changes')
@@ -104,7 +110,8 @@ def main():
     det = [m for m in conf if m.get('detection', {}).get('detected')]
     out.append(f'Seeded changes: {len(allm)} kept, {len(conf)} confirmed, {len(det)} of the confirmed ones reported by at least one registered check.')
     r3 = [m for m in conf if '-r3-' in m['seed']]
-    conf = [m for m in conf if '-r3-' not in m['seed']]
+    r4 = [m for m in conf if '-r4-' in m['seed']]
+    conf = [m for m in conf if '-r3-' not in m['seed'] and '-r4-' not in m['seed']]
     r2 = [m for m in conf if 'detection_before_round2_rules' in m]
     r2b = [m for m in r2 if m['detection_before_round2_rules'].get('detected')]
     r2f = [m for m in r2 if m.get('detection', {}).get('detected')]
@@ -115,6 +122,9 @@ def main():
     if r3:
         r3f = [m for m in r3 if m.get('detection', {}).get('detected')]
         out.append(f'Round 3 (fresh seeds against the then-final checker, no rule written in response to them): {len(r3)} confirmed, {len(r3f)} reported.')
+    if r4:
+        r4f = [m for m in r4 if m.get('detection', {}).get('detected')]
+        out.append(f'Round 4 (fresh seeds against the final checker, no rule written in response to them): {len(r4)} confirmed, {len(r4f)} reported.')
     out.append('')
     d = open(f'{V}/DESIGN.md').read()
     head = d.split(MARK)[0].rstrip() + '\n\n'
